@@ -14,8 +14,11 @@ JITTER = 1e-12
 def d_theta(p):
     """differentiate with respect to the hyper-parameter theta[p] (theta is the input vector named 'theta')"""
     def dleaf(e):
-        if e.decl().name() == "theta" and z3.is_int_value(e.arg(0)) and e.arg(0).as_long() == p:
-            return z3.RealVal(1)
+        if e.decl().name() == "theta":
+            k = e.arg(0)
+            if z3.is_int_value(k):
+                return z3.RealVal(1) if k.as_long() == p else None
+            return z3.If(k == p, z3.RealVal(1), z3.RealVal(0))      # theta read at a symbolic position
         return None
     return dleaf
 
@@ -96,3 +99,361 @@ def squared_exponential(vc):
 @contract("C10", "rational_quadratic", native=False)
 def rational_quadratic(vc):
     _kernel_contract(vc, "RationalQuadratic", rq_spec, 2)
+
+
+# ---- noise kernels -------------------------------------------------------------------------------------------
+@contract("C10", "white_noise", native=False)
+def white_noise(vc):
+    d = vc.choice("d", [1, 2])
+    n, m, k = vc.int("n", lo=1), vc.int("m", lo=1), vc.int("k", lo=1)
+    x, u, v = _points(vc, "x", n, d), _points(vc, "u", k, d), _points(vc, "v", m, d)
+    theta = vc.vector("theta", 1)
+    K = vc.new(COV, "WhiteNoise")
+    c = vc.call(K, "__call__", u, v, theta)
+    vc.ensures("cross_covariance.shape", S.And(c.ndim == 2, S.cmp("==", c.shape[0], k), S.cmp("==", c.shape[1], m)))
+    vc.ensures_forall("cross_covariance.zero", (k, m), lambda i, j: c[i, j] == 0)
+    vc.call(K, "pass_spatial_data", x)
+    B = vc.call(K, "build_covariance", theta)
+    s2 = vc.exp(2 * theta[0])
+    vc.ensures_forall("builder.is_sigma_squared_on_the_diagonal", (n, n), lambda i, j: B[i, j] == _delta(i, j, s2))
+    Kv, grads = vc.call(K, "covariance_and_gradients", theta)
+    vc.ensures("gradients.count", len(grads) == 1)
+    vc.ensures_forall("gradients.value_agrees", (n, n), lambda i, j: Kv[i, j] == B[i, j])
+    vc.ensures_forall("gradients.exact", (n, n), lambda i, j: grads[0][i, j] == derivative(B[i, j], d_theta(0)))
+
+
+@contract("C10", "heteroscedastic_noise", native=False)
+def heteroscedastic_noise(vc):
+    d = vc.choice("d", [1, 2, 3])
+    n = vc.choice("n", [1, 2, 3])          # one hyper-parameter per data point: proved per listed size
+    m, k = vc.int("m", lo=1), vc.int("k", lo=1)
+    x, u, v = _points(vc, "x", n, d), _points(vc, "u", k, d), _points(vc, "v", m, d)
+    theta = vc.vector("theta", n)
+    K = vc.new(COV, "HeteroscedasticNoise")
+    c = vc.call(K, "__call__", u, v, theta)
+    vc.ensures("cross_covariance.shape", S.And(c.ndim == 2, S.cmp("==", c.shape[0], k), S.cmp("==", c.shape[1], m)))
+    vc.ensures_forall("cross_covariance.zero", (k, m), lambda i, j: c[i, j] == 0)
+    vc.call(K, "pass_spatial_data", x)
+    vc.ensures("n_params", vc.attr(K, "n_params") == n)
+    B = vc.call(K, "build_covariance", theta)
+    vc.ensures_forall("builder.is_sigma_i_squared_on_the_diagonal", (n, n),
+                      lambda i, j: B[i, j] == _delta(i, j, vc.exp(2 * theta[i])))
+    Kv, grads = vc.call(K, "covariance_and_gradients", theta)
+    vc.ensures("gradients.count", len(grads) == n)
+    for q in range(n):
+        vc.ensures_forall("gradients.exact", (n, n), lambda i, j, q=q: grads[q][i, j] == derivative(B[i, j], d_theta(q)))
+
+
+# ---- composites ----------------------------------------------------------------------------------------------
+@contract("C10", "slice_builder", native=False)
+def slice_builder(vc):
+    k = vc.choice("n_components", [1, 2, 3, 4])
+    lengths = [vc.int(f"len{i}", lo=0) for i in range(k)]
+    sl = vc.callf(COV, "slice_builder", list(lengths))
+    vc.ensures("count", len(sl) == k)
+    start = 0
+    for i in range(k):
+        vc.ensures("consecutive_partition", S.And(sl[i].start == start, sl[i].stop == start + lengths[i], sl[i].step is None))
+        start = start + lengths[i]
+
+
+@contract("C10", "composite", native=False)
+def composite(vc):
+    """a sum of kernels: value, gradients, labels and bounds are those of the components concatenated in order"""
+    cfg = vc.choice("components", [["SquaredExponential", "WhiteNoise"], ["WhiteNoise", "RationalQuadratic"],
+                                   ["SquaredExponential", "RationalQuadratic", "WhiteNoise"]])
+    d = 1
+    n, m, k = vc.int("n", lo=1), vc.int("m", lo=1), vc.int("k", lo=1)
+    x, u, v = _points(vc, "x", n, d), _points(vc, "u", k, d), _points(vc, "v", m, d)
+    sizes = {"SquaredExponential": 1 + d, "RationalQuadratic": 2 + d, "WhiteNoise": 1}
+    comps, bnds = [], []
+    for ci, name in enumerate(cfg):
+        b = [(vc.real(f"lo{ci}_{t}"), vc.real(f"hi{ci}_{t}")) for t in range(sizes[name])]
+        bnds.append(b)
+        comps.append(vc.new(COV, name, hyperpar_bounds=list(b)))
+    p = sum(sizes[c] for c in cfg)
+    theta = vc.vector("theta", p)
+    C = comps[0]
+    for c_ in comps[1:]:
+        C = vc.call(C, "__add__", c_)
+    vc.call(C, "pass_spatial_data", x)
+    vc.call(C, "estimate_hyperpar_bounds", vc.vector("y", n))
+    vc.ensures("n_params", vc.attr(C, "n_params") == p)
+    # separate instances of the component classes evaluated on their own slices
+    off = 0
+    parts_call, parts_build, parts_grads, labels, bounds = [], [], [], [], []
+    for ci, name in enumerate(cfg):
+        ref = vc.new(COV, name)
+        vc.call(ref, "pass_spatial_data", x)
+        th = theta[off:off + sizes[name]]
+        parts_call.append(vc.call(ref, "__call__", u, v, th))
+        parts_build.append(vc.call(ref, "build_covariance", th))
+        parts_grads.extend(vc.call(ref, "covariance_and_gradients", th)[1])
+        labels.extend(f"K{ci + 1}: {s_}" for s_ in vc.attr(ref, "hyperpar_labels"))
+        bounds.extend(bnds[ci])
+        off += sizes[name]
+    kc = vc.call(C, "__call__", u, v, theta)
+    B = vc.call(C, "build_covariance", theta)
+    Kv, grads = vc.call(C, "covariance_and_gradients", theta)
+    vc.ensures_forall("call.is_sum_of_components_on_their_slices", (k, m),
+                      lambda i, j: kc[i, j] == sum(pc[i, j] for pc in parts_call))
+    vc.ensures_forall("builder.is_sum_of_components_on_their_slices", (n, n),
+                      lambda i, j: B[i, j] == sum(pb[i, j] for pb in parts_build))
+    vc.ensures_forall("gradients.value_agrees", (n, n), lambda i, j: Kv[i, j] == B[i, j])
+    vc.ensures("gradients.count", len(grads) == p)
+    for q in range(min(len(grads), p)):
+        vc.ensures_forall("gradients.are_component_gradients_in_order", (n, n),
+                          lambda i, j, q=q: grads[q][i, j] == parts_grads[q][i, j])
+    vc.ensures("labels.concatenated_in_order", list(vc.attr(C, "hyperpar_labels")) == labels)
+    got_b = vc.attr(C, "bounds")
+    vc.ensures("bounds.concatenated_in_order", len(got_b) == p and S.And(*[S.And(g_[0] == w_[0], g_[1] == w_[1])
+                                                                          for g_, w_ in zip(got_b, bounds)]))
+
+
+def _logistic(vc, x, loc, width):
+    return 1.0 / (1.0 + vc.exp(-(x - loc) / width))
+
+
+@contract("C10", "change_point_logistic", native=False)
+def change_point_logistic(vc):
+    """the logistic weight and its two partial derivatives (location, width)"""
+    n = vc.int("n", lo=1)
+    x = vc.vector("x", n)
+    theta = vc.vector("theta", 2)
+    vc.assume(theta[1] > 0)
+    w = vc.callf(COV, "ChangePoint.logistic", x, theta)
+    f, grads = vc.callf(COV, "ChangePoint.logistic_and_gradient", x, theta)
+    vc.ensures_forall("weight.formula", n, lambda a: w[a] == _logistic(vc, x[a], theta[0], theta[1]))
+    vc.ensures_forall("weight.value_agrees", n, lambda a: f[a] == w[a])
+    vc.ensures("gradients.count", len(grads) == 2)
+    for q in range(2):
+        vc.ensures_forall("gradients.exact", n, lambda a, q=q: grads[q][a] == derivative(w[a], d_theta(q)))
+
+
+@contract("C10", "change_point", native=False)
+def change_point(vc):
+    """change-point combination of 2, 3 or 4 squared-exponential kernels (proved per listed number of kernels).
+    The logistic weights are modular here (their contract is change_point_logistic): W_t(a) with partial
+    derivatives dW_t,0(a) (location) and dW_t,1(a) (width)."""
+    nk = vc.choice("n_kernels", [2, 3, 4])
+    d = 1
+    n = vc.int("n", lo=1)
+    x = _points(vc, "x", n, d)
+    comps = [vc.new(COV, "SquaredExponential") for _ in range(nk)]
+    CP = vc.new(COV, "ChangePoint", kernels=list(comps), axis=0)
+    vc.call(CP, "pass_spatial_data", x)
+    base = nk * (1 + d)
+    p = base + 2 * (nk - 1)
+    vc.ensures("n_params", vc.attr(CP, "n_params") == p)
+    theta = vc.vector("theta", p)
+    W = z3.Function("W", z3.IntSort(), z3.IntSort(), z3.RealSort())
+    dW = z3.Function("dW", z3.IntSort(), z3.IntSort(), z3.IntSort(), z3.RealSort())
+
+    def which(th):
+        k = S.z(th[0]).arg(0)
+        if not z3.is_int_value(k) or (k.as_long() - base) % 2 or not (0 <= (k.as_long() - base) // 2 < nk - 1):
+            raise S.Unsupported("change-point weight evaluated on an unexpected parameter slice")
+        return (k.as_long() - base) // 2
+
+    def weight(t, m):
+        return Tensor((m,), lambda a: Sym(W(z3.IntVal(t), S.z(a))))
+
+    def logistic(I, func, args, kwargs):
+        xs, th = args[-2], args[-1]
+        return weight(which(th), xs.shape[0])
+
+    def logistic_and_gradient(I, func, args, kwargs):
+        xs, th = args[-2], args[-1]
+        t = which(th)
+        return weight(t, xs.shape[0]), [Tensor((xs.shape[0],), lambda a, j=j: Sym(dW(z3.IntVal(t), z3.IntVal(j), S.z(a))))
+                                        for j in range(2)]
+
+    vc.modular("ChangePoint.logistic", logistic)
+    vc.modular("ChangePoint.logistic_and_gradient", logistic_and_gradient)
+    B = vc.call(CP, "build_covariance", theta)
+    refs = []
+    for i in range(nk):
+        r = vc.new(COV, "SquaredExponential")
+        vc.call(r, "pass_spatial_data", x)
+        refs.append(vc.call(r, "build_covariance", theta[i * (1 + d):(i + 1) * (1 + d)]))
+    w = [lambda a, t=t: Sym(W(z3.IntVal(t), S.z(a))) for t in range(nk - 1)]
+
+    def coeff(i, a, b):
+        c = 1.0
+        if i > 0:
+            c = c * w[i - 1](a) * w[i - 1](b)
+        if i < nk - 1:
+            c = c * (1 - w[i](a)) * (1 - w[i](b))
+        return c
+
+    vc.ensures_forall("builder.is_weighted_sum_of_kernels", (n, n),
+                      lambda a, b: B[a, b] == sum(refs[i][a, b] * coeff(i, a, b) for i in range(nk)))
+    Kv, grads = vc.call(CP, "covariance_and_gradients", theta)
+    vc.ensures("gradients.count", len(grads) == p)
+    vc.ensures_forall("gradients.value_agrees", (n, n), lambda a, b: Kv[a, b] == B[a, b])
+
+    def d_param(q):
+        kernel = d_theta(q)
+
+        def dleaf(e):
+            nm = e.decl().name()
+            if nm == "theta":
+                return kernel(e)
+            if nm == "W" and q >= base:
+                t, j = (q - base) // 2, (q - base) % 2
+                if e.arg(0).as_long() == t:
+                    return dW(z3.IntVal(t), z3.IntVal(j), e.arg(1))
+            return None
+        return dleaf
+
+    for q in range(min(len(grads), p)):
+        vc.ensures_forall("gradients.exact.diagonal", n, lambda a, q=q: grads[q][a, a] == derivative(B[a, a], d_param(q)))
+        vc.ensures_forall("gradients.exact.off_diagonal", (n, n),
+                          lambda a, b, q=q: S.Implies(S.Not(S.cmp("==", a, b)),
+                                                      grads[q][a, b] == derivative(B[a, b], d_param(q))))
+
+
+# ---- mean functions ------------------------------------------------------------------------------------------
+def _mean_contract(vc, clsname, n_params_of_d, spec):
+    d = vc.choice("d", [1, 2])
+    n = vc.int("n", lo=1)
+    x = _points(vc, "x", n, d)
+    p = n_params_of_d(d)
+    theta = vc.vector("theta", p)
+    M = vc.new(MEAN, clsname)
+    vc.call(M, "pass_spatial_data", x)
+    vc.ensures("n_params", vc.attr(M, "n_params") == p)
+    xm = vc.attr(M, "x_mean") if clsname != "ConstantMean" else None
+    mu = vc.call(M, "build_mean", theta)
+    want = spec(vc, x, xm, theta, d)
+    vc.ensures("build.length", S.cmp("==", mu.shape[0], n))
+    vc.ensures_forall("build.formula", n, lambda i: mu[i] == want(lambda c: x[i, c]))
+    # evaluation at an arbitrary query point uses the same function
+    q = vc.vector("q", d)
+    mq = vc.call(M, "__call__", q, theta)
+    vc.ensures("call.formula", mq == want(lambda c: q[c]))
+    val, grads = vc.call(M, "mean_and_gradients", theta)
+    vc.ensures("gradients.count", len(grads) == p)
+    vc.ensures_forall("gradients.value_agrees", n, lambda i: val[i] == mu[i])
+    for t in range(min(len(grads), p)):
+        vc.ensures_forall("gradients.exact", n, lambda i, t=t: grads[t][i] == derivative(mu[i], d_theta(t)))
+
+
+@contract("C10", "constant_mean", native=False)
+def constant_mean(vc):
+    _mean_contract(vc, "ConstantMean", lambda d: 1, lambda vc_, x, xm, th, d: (lambda pt: th[0]))
+
+
+@contract("C10", "linear_mean", native=False)
+def linear_mean(vc):
+    def spec(vc_, x, xm, th, d):
+        return lambda pt: th[0] + sum((pt(c) - xm[c]) * th[1 + c] for c in range(d))
+    _mean_contract(vc, "LinearMean", lambda d: 1 + d, spec)
+
+
+@contract("C10", "quadratic_mean", native=False)
+def quadratic_mean(vc):
+    def spec(vc_, x, xm, th, d):
+        return lambda pt: (th[0] + sum((pt(c) - xm[c]) * th[1 + c] for c in range(d))
+                           + sum((pt(c) - xm[c]) ** 2 * th[1 + d + c] for c in range(d)))
+    _mean_contract(vc, "QuadraticMean", lambda d: 1 + 2 * d, spec)
+
+
+# ---------------------------------------------------------------------------------------------------
+# bounded layer: positive semi-definiteness, builder vs pairwise, finite-difference gradients, any dimension
+# ---------------------------------------------------------------------------------------------------
+import numpy as np
+
+
+def _random_kernel(rng, depth=0):
+    from inference.gp import SquaredExponential, RationalQuadratic, WhiteNoise, HeteroscedasticNoise, ChangePoint
+    kind = rng.choice(["SE", "RQ", "SE+WN", "SE+RQ", "CP2", "CP3", "CP4", "SE+HN", "CP2+WN", "RQ+SE+WN"])
+    mk = {"SE": SquaredExponential, "RQ": RationalQuadratic, "WN": WhiteNoise, "HN": HeteroscedasticNoise}
+    if kind.startswith("CP"):
+        parts = kind.split("+")
+        nk = int(parts[0][2])
+        K = ChangePoint(kernels=[mk[str(rng.choice(["SE", "RQ"]))] for _ in range(nk)], axis=0)
+        for extra in parts[1:]:
+            K = K + mk[extra]()
+        return kind, K
+    parts = kind.split("+")
+    K = mk[parts[0]]()
+    for extra in parts[1:]:
+        K = K + mk[extra]()
+    return kind, K
+
+
+@bounded("C10", "covariance_native", native_runs=40)
+def covariance_native(vc):
+    seed = vc.int("seed", lo=0, hi=10 ** 6)
+    rng = np.random.default_rng(seed)
+    d = vc.int("d", lo=1, hi=3)
+    n = vc.int("n", lo=2, hi=14)
+    x = rng.normal(size=(n, d)) * 10 ** rng.uniform(-1, 1)
+    if seed % 5 == 0:
+        x[1] = x[0]                      # repeated point: a singular but still PSD case
+    kind, K = _random_kernel(rng)
+    vc.inputs["kernel"] = kind
+    K.pass_spatial_data(x)
+    y = rng.normal(size=n)
+    with np.errstate(all="ignore"):
+        K.estimate_hyperpar_bounds(y)
+    p = K.n_params
+    vc.ensures("labels_and_bounds_match_parameter_count", len(K.hyperpar_labels) == p and len(K.bounds) == p)
+    span = float(np.ptp(x[:, 0])) + 1e-3
+    theta = np.array([rng.uniform(x[:, 0].min(), x[:, 0].max()) if "location" in lab
+                      else rng.uniform(0.05, 0.6) * span if "width" in lab
+                      else rng.uniform(-1.0, 1.0) for lab in K.hyperpar_labels])
+    B = K.build_covariance(theta)
+    scale = max(1.0, np.trace(B))
+    vc.ensures("symmetric", bool(np.allclose(B, B.T, rtol=1e-12, atol=1e-12 * scale)))
+    vc.ensures("positive_semidefinite", bool(np.linalg.eigvalsh(0.5 * (B + B.T)).min() >= -1e-9 * scale))
+    # the builder equals the generic pairwise evaluation on the same points plus diagonal terms only
+    P = K(x, x, theta)
+    off = ~np.eye(n, dtype=bool)
+    vc.ensures("builder_equals_pairwise_off_diagonal", P.shape == (n, n) and bool(np.allclose(B[off], P[off], rtol=1e-10, atol=1e-12 * scale)))
+    vc.ensures("builder_diagonal_terms_non_negative", bool(np.all(np.diag(B) - np.diag(P) >= -1e-12 * scale)))
+    # cross-covariance with other points: shape, and PSD of the joint matrix of the noise-free part
+    q = rng.normal(size=(3, d))
+    vc.ensures("cross_covariance_shape", K(q, x, theta).shape == (3, n))
+    xa = np.vstack([x, q])
+    Pa = K(xa, xa, theta)
+    vc.ensures("pairwise_kernel_psd", bool(np.linalg.eigvalsh(0.5 * (Pa + Pa.T)).min() >= -1e-9 * max(1.0, np.trace(Pa))))
+    Kv, grads = K.covariance_and_gradients(theta)
+    ok = len(grads) == p and np.allclose(Kv, B)
+    worst = 0.0
+    for t in range(p):
+        h = 1e-5
+        e = np.zeros(p)
+        e[t] = h
+        # 4th-order central difference
+        fd = (-K.build_covariance(theta + 2 * e) + 8 * K.build_covariance(theta + e)
+              - 8 * K.build_covariance(theta - e) + K.build_covariance(theta - 2 * e)) / (12 * h)
+        err = np.abs(grads[t] - fd).max() / max(1e-8, np.abs(fd).max(), np.abs(B).max())
+        worst = max(worst, float(err))
+    vc.inputs["worst_gradient_error"] = worst
+    vc.ensures("gradients_match_finite_differences", bool(ok) and worst < 1e-6)
+
+
+@bounded("C10", "mean_native", native_runs=20)
+def mean_native(vc):
+    from inference.gp import ConstantMean, LinearMean, QuadraticMean
+    seed = vc.int("seed", lo=0, hi=10 ** 6)
+    rng = np.random.default_rng(seed)
+    d = vc.int("d", lo=1, hi=3)
+    n = vc.int("n", lo=2, hi=10)
+    x = rng.normal(size=(n, d)) + rng.normal() * 10
+    M = [ConstantMean, LinearMean, QuadraticMean][seed % 3]()
+    M.pass_spatial_data(x)
+    M.estimate_hyperpar_bounds(rng.normal(size=n))
+    p = M.n_params
+    theta = rng.normal(size=p)
+    mu = M.build_mean(theta)
+    vc.ensures("build_equals_pointwise_call", bool(np.allclose(mu, [M(x[i], theta) for i in range(n)], rtol=1e-10, atol=1e-10)))
+    val, grads = M.mean_and_gradients(theta)
+    ok = len(grads) == p and len(M.hyperpar_labels) == p and len(M.bounds) == p and np.allclose(val, mu)
+    for t in range(p):
+        e = np.zeros(p)
+        e[t] = 1e-6
+        ok = ok and np.allclose(grads[t], (M.build_mean(theta + e) - M.build_mean(theta - e)) / 2e-6, rtol=1e-6, atol=1e-6)
+    vc.ensures("gradients_match_finite_differences", bool(ok))
